@@ -381,7 +381,12 @@ def unresolved_names(diags):
         elif code == 'E0599':
             mm = re.search(r'no (?:method|function or associated item|associated function or constant|associated item) named `(\w+)` found', msg)
         if mm and not mm.group(1).startswith('vx_'):
-            out.add(mm.group(1))
+            mt = re.search(r'found for (?:struct|enum|type alias) `(?:\w+::)*(\w+)(?:<[^`]*>)?`', msg) if code == 'E0599' and 'associated' in msg else None
+            if mt and mm.group(1) in ('new', 'default', 'from', 'into', 'with', 'build'):
+                # a common name: only the calls written with this type are meant
+                out.add('%s::%s' % (mt.group(1), mm.group(1)))
+            else:
+                out.add(mm.group(1))
         if code == 'E0424':
             # `self.helper(..)` left in a block (a method of the enclosing type that the block's substitutions do not name):
             # the helper's name is taken from the source line the error points at
